@@ -198,6 +198,22 @@ def generate(g, tier):
             if isinstance(v, (int, float)) and not isinstance(v, bool) and abs(v) >= 10 ** 300: continue
         except (EvalError, OverflowError, ZeroDivisionError, TypeError): continue
         cases.append(mk_case(g, e, {}, 'inexact'))
+    # integers are unbounded INSIDE an expression: an intermediate value of thousands of digits is fine as long as what is finally
+    # written out is small (a comparison, a quotient, a remainder, a difference of two huge values) — also through a variable
+    for _ in range(count(tier, 40, 400)):
+        N = r.choice([320, 1000, 1500, 4299, 4301, 6000, 12000, 20000])
+        b = r.choice([10, 2, 3, 7])
+        k = r.randint(1, 3)
+        shapes = [(f'{b}^{N} > 1', True), (f'{b}^{N} // {b}^{N - k}', b ** k), (f'{b}^{N} % 7', pow(b, N, 7)), (f'({b}^{N} - {b}^{N}) + 5', 5),
+                  (f'{b}^{N} == {b}^{N}', True), (f'{b}^{N} < {b}^{N + 1}', True), (f'({b}^{N} + 7) % {b}', 7 % b), (f'{b}^{N} != {b}^{N} + 1', True),
+                  (f'({b}^{N}) * 0', 0), (f'0 - {b}^{N} < 0', True), (f'({b}^{N} // {b}^{N - 1}) ^ 2', b * b), (f'2^{N} // 2^{N - 10} + 1', 1025)]
+        txt, v = r.choice(shapes)
+        if g.chance(0.5) or f'{b}^{N}' not in txt:
+            lines = [f'$STRING {txt}']
+        else:
+            head, _, tail = txt.partition(f'{b}^{N}')
+            lines = [f'VAR big {b}^{N}', f'$STRING {head}big{tail}']
+        cases.append(dict(op='compile', timeout=30, src=dict(text='\n'.join(lines)), meta=dict(family='huge-intermediate', form='outs', expout=['STRING ' + str(v)], nocorr=True)))
     # division by zero in every position
     for op in ('/', '//', '%'):
         for _ in range(count(tier, 10, 60)):
